@@ -6,6 +6,7 @@ grid, and both written tables."""
 import math, os, random, re, shutil, subprocess, sys, tempfile
 from concurrent.futures import ThreadPoolExecutor
 
+os.environ.setdefault("OMP_NUM_THREADS", "1")     # many runs in parallel: one thread each (no oversubscription, no timeouts under load)
 VERIF = os.path.dirname(os.path.dirname(os.path.abspath(__file__)))
 
 
@@ -72,7 +73,7 @@ def run_one(exe, s):
         cmd = [exe, "--in", "in", "--out", "out", "--derivative", "der", "--grid", "%r:%r:%r" % (s["mn"], s["st"], s["mx"]), "--type", s["kind"]]
         if s["periodic"]:
             cmd += ["--boundaries", "periodic"]
-        r = subprocess.run(cmd, cwd=d, stdout=subprocess.PIPE, stderr=subprocess.PIPE, timeout=60)
+        r = subprocess.run(cmd, cwd=d, stdout=subprocess.PIPE, stderr=subprocess.PIPE, timeout=600)
         ok = r.returncode == 0 and os.path.exists(os.path.join(d, "out")) and os.path.exists(os.path.join(d, "der"))
         line = "C12 resample %s %s %d %d %s %s %s %s" % (s["sid"], s["kind"], 1 if s["periodic"] else 0, len(s["xs"]),
                                                      " ".join("%s %s %s" % (me(x), me(y), fl) for x, y, fl in zip(s["xs"], s["ys"], s["flags"])),
@@ -148,7 +149,7 @@ def run_fit(exe, s):
                 f.write("%r %r i\n" % (x, y))
         cmd = [exe, "--in", "in", "--out", "out", "--grid", "%r:%r:%r" % (s["omn"], s["ost"], s["omx"]),
                "--fitgrid", "%r:%r:%r" % (s["fmn"], s["fst"], s["fmx"]), "--type", "cubic"]
-        r = subprocess.run(cmd, cwd=d, stdout=subprocess.PIPE, stderr=subprocess.PIPE, timeout=60)
+        r = subprocess.run(cmd, cwd=d, stdout=subprocess.PIPE, stderr=subprocess.PIPE, timeout=600)
         ok = r.returncode == 0 and os.path.exists(os.path.join(d, "out"))
         line = "C12 resfit %s %d %s %s %s %s %s %s %s" % (s["sid"], len(s["kx"]), " ".join("%s %s" % (me(x), me(y)) for x, y in zip(s["kx"], s["ky"])),
                                                        me(s["fmn"]), me(s["fmx"]), me(s["fst"]), me(s["omn"]), me(s["omx"]), me(s["ost"]))
